@@ -144,17 +144,47 @@ def ob_string_literal(r, tier, seed, items):
         elif len(r.samples) < 3: r.samples.append({'items': desc})
     for key, (what, desc) in found.items():
         ok_, detail = True, 'values read from the real lower_expr_with_args / escape_go_string MIR'
-        if key == 'escape-not-decoded':
-            src = 'fn main() -> unit { string_println("a\\\\nb") }\n'
-            d = tempfile.mkdtemp(prefix='vf-c11-')
-            try:
-                open(os.path.join(d, 'main.gom'), 'w').write(src)
-                out = subprocess.run([build.compiler_bin(), 'run', '--dump-go', os.path.join(d, 'main.gom')], capture_output=True, text=True, timeout=60).stdout
-            finally: shutil.rmtree(d, ignore_errors=True)
-            line = [l.strip() for l in out.splitlines() if 'string_println("a' in l]
-            ok_ = bool(line) and '"a\\\\\\\\nb"' in line[0]
-            detail = 'goml `string_println("a\\\\nb")` emits Go `%s` (a backslash and an n, not a newline)' % (line[0] if line else '?')
+        if key in ('escape-not-decoded', 'literal-changed') and desc is not None:
+            ok_, detail = replay_string_literal(desc)
         r.findings.append(Finding(key, what, {'items': desc}, ok_, detail))
+
+def py_go_decode(lit):
+    """concrete reference decoder of the content of a Go interpreted string literal -> code points (None if illegal)"""
+    out = []; i = 0; tab = {'a': 7, 'b': 8, 'f': 12, 'n': 10, 'r': 13, 't': 9, 'v': 11, '\\': 92, '"': 34}
+    while i < len(lit):
+        c = lit[i]
+        if c in '"\n\0': return None
+        if c == '\\':
+            if i + 1 >= len(lit): return None
+            e = lit[i + 1]
+            if e in tab: out.append(tab[e]); i += 2; continue
+            if e in 'xuU':
+                k = {'x': 2, 'u': 4, 'U': 8}[e]
+                try: out.append(int(lit[i + 2:i + 2 + k], 16))
+                except ValueError: return None
+                i += 2 + k; continue
+            return None
+        out.append(ord(c)); i += 1
+    return out
+
+def replay_string_literal(desc):
+    """native: the goml literal built from the items (plain characters as `x`) through the real CLI; the emitted Go literal is decoded and compared"""
+    src_lit = ''.join('x' if d == '<char>' else d for d in desc)
+    want = []
+    for d in desc:
+        if d == '<char>': want.append(ord('x'))
+        elif d.startswith('\\u'): want.append(int(d[2:], 16))
+        else: want.append(ESC[d[1]])
+    d_ = tempfile.mkdtemp(prefix='vf-c11-')
+    try:
+        open(os.path.join(d_, 'main.gom'), 'w').write('fn main() -> unit { string_println("%s") }\n' % src_lit)
+        out = subprocess.run([build.compiler_bin(), 'run', '--dump-go', os.path.join(d_, 'main.gom')], capture_output=True, text=True, timeout=60)
+    finally: shutil.rmtree(d_, ignore_errors=True)
+    line = [l.strip() for l in out.stdout.splitlines() if 'string_println("' in l and 'func ' not in l]
+    if not line: return False, 'native CLI did not emit the call: %s' % (out.stdout + out.stderr)[-200:]
+    body = line[0][line[0].index('string_println("') + len('string_println("'):line[0].rindex('")')]
+    got = py_go_decode(body)
+    return got != want, 'goml `string_println("%s")` emits Go `%s`, which denotes %s; the source denotes %s' % (src_lit, line[0], got, want)
 
 def _string_obs():
     return [Ob('O11.3-string-literal-1', 'string literal fidelity through lowering and Go printing: 1 item', ob_string_literal, ('quick', 'thorough'), 1, dict(items=1)),
